@@ -689,6 +689,15 @@ pub fn limit(rng: &mut Rng) -> Option<usize> {
 pub fn excursion(rng: &mut Rng, ctx: &mut Ctx, p: &Profile) -> Vec<Op> {
     let mut ops = Vec::new();
     let modes = ["47", "1047", "1049"];
+    if rng.chance(35) {
+        // a primary screen full of short lines with the cursor at the bottom: what a shorter screen on return must push
+        // into the scrollback (above the cursor), never cut
+        let mut s = String::from("\x1b[r\x1b[999;1H");
+        for i in 0..(ctx.rows + rng.range(0, 2)) {
+            s.push_str(&format!("\r\nl{}", i + 1));
+        }
+        ops.push(Op::Str(s));
+    }
     ops.push(Op::Str(format!("\x1b[?{}h", rng.pick(&modes))));
     if rng.chance(50) {
         ops.push(Op::Str(token(rng, ctx, K_TEXT)));
@@ -729,7 +738,7 @@ pub fn excursion(rng: &mut Rng, ctx: &mut Ctx, p: &Profile) -> Vec<Op> {
     // executed in order, each with its own reflow / restore)
     let m = *rng.pick(&modes);
     let leave = match rng.below(10) {
-        0 => format!("\x1b[?{};6l", m),
+        0 | 4 => format!("\x1b[?{};6l", m),
         1 => format!("\x1b[?6;{}l", m),
         2 => format!("\x1b[?{};7l", m),
         3 => format!("\x1b[?25;{}l", m),
